@@ -9,12 +9,16 @@ import ObiVerif.Lemmas.Splitters
 import ObiVerif.Lemmas.FastaGrammar
 import ObiVerif.Lemmas.Embl
 import ObiVerif.Lemmas.FlatSplit
+import ObiVerif.Lemmas.FastqSplit
+import ObiVerif.Lemmas.FastqGrammar
+import ObiVerif.Lemmas.Genbank
 /-!
 # C01 — parsed records do not depend on chunk boundaries, transport or parser workers
 
 Property theorems.  Models: `Model/Chunk.lean` (`ReadSeqFileChunk`, the three splitters),
 `Model/Fasta.lean`, `Model/Fastq.lean`, `Model/FlatFile.lean` (chunk parsers), `Model/Reseq.lean`
-(`SortBatches`).  Helper lemmas: `Lemmas/Chunk.lean`, `Lemmas/Fasta.lean`, `Lemmas/Reseq.lean`.
+(`SortBatches`).  Helper lemmas: `Lemmas/Chunk.lean`, `Lemmas/Fasta.lean`, `Lemmas/Reseq.lean`,
+`Lemmas/FastqSplit.lean`, `Lemmas/FastqGrammar.lean`, `Lemmas/Genbank.lean`, ….
 
 * `chunks_terminate`, `chunks_reassemble` — `ReadSeqFileChunk`, for ANY splitter that returns a
   negative value or a position in `[1, len]`: the goroutine terminates and the chunk texts, in
@@ -26,8 +30,13 @@ Property theorems.  Models: `Model/Chunk.lean` (`ReadSeqFileChunk`, the three sp
 * `wellFormed_complete` — the files of the FASTA grammar (title line, sequence lines over the
   alphabet, LF / CRLF / blank lines) are read as a whole number of records.
 
-FASTQ and GenBank/EMBL: the models are tied to the code by the correspondence check only (see
-`lib/cfg/C01.py`); the corresponding theorems are stated in comments at the end of this file.
+* `splitFastq_pattern`, `splitFastq_is_record_start`, `parseFastq_append`,
+  `reader_independent_fastq`, `wellFormedFastq_complete`, `reader_independent_fastq_wellFormed` — FASTQ:
+  the same chain; a cut of `EndOfLastFastqEntry` in a prefix of a text the parser reads without error
+  is a record start, never the `@` of a quality line.
+* `parseEmbl_append`, `parseGenbank_append`, `reader_independent_embl`, `reader_independent_genbank`,
+  `reader_independent_flat` — flat files: record locality after a `//` line and the composed reader
+  for files whose lines end with `\n` or `\r\n` (`regularEol`; counterexamples without it).
 -/
 namespace ObiVerif.Props.C01
 open ObiVerif.Chunk ObiVerif.Parse ObiVerif.Reseq
@@ -252,20 +261,274 @@ record start at offset 11 is; GenBank-like text: the cut follows `␊//␊` -/
 example : splitFastq [64, 97, 10, 65, 67, 10, 43, 10, 64, 73, 10, 64, 98, 10, 71, 71, 10, 43, 10, 73, 73] = 11 := by decide
 example : splitFlat [120, 120, 10, 47, 47, 10, 76, 79] = 6 := by decide
 
-/-! ## 5. Stated, not proved here (the models are tied to the code by the correspondence check)
+/-! ## 4b. FASTQ: the splitter cuts at record starts, the parser is record-local, the reader is chunk-independent -/
 
-FASTQ — `splitFastq_is_record_start`: in a prefix of a text that `parseFastq` reads without error, a
-non-negative result of `splitFastq` is the offset of an `@` at which the parser is in state 11 (a record
-start): the pattern "line starting with `@`, line over the sequence alphabet, line starting with `+`"
-cannot begin on a sequence line (state 5: the next line would have to start with `+`) nor on a quality
-line (state 9: the next line would have to start with `@`).  With it, `parseFastq_append` and
-`reader_independent` for FASTQ follow as in section 3.
-GenBank / EMBL — proved above: `splitFlat` cuts after a `//` line (`splitFlat_spec`) and EMBL record
-locality (`parseEmbl_append`; false before the repair `C01-flatfile-record-state-reset`: witness two
-records, the second without `/db_xref="taxon:`).  Not proved: the composition `reader_independent` for
-EMBL (needs: stripping the trailing LF / CR LF of a chunk does not change its lines — false for stray
-CR runs such as `//\r\r\n`, so the statement needs a regular-line-end hypothesis), and GenBank locality
-(the same argument up to the dead fields `id`/`seqB` in state `inHeader` and the fatal paths). -/
+/-- **what `EndOfLastFastqEntry` recognises**, for ANY buffer: a non-negative result is the offset of
+an `@` that follows an end-of-line byte and is followed by `x EOL⁺ s sep* EOL '+'`, `x` without
+end-of-line byte, `s` a non-empty run over the sequence alphabet (`FastqCut`, Lemmas/FastqSplit.lean) -/
+theorem splitFastq_pattern : SplitterOK splitFastq FastqCut := splitFastq_ok_cut
+
+/-- **splitFastq_is_record_start**.  `buf` is a prefix (what `ReadSeqFileChunk` has read so far) of a
+text `buf ++ more` that the byte machine of `FastqChunkParser` reads without error (in particular: of
+any well-formed file, next theorem).  A non-negative result `n` of `EndOfLastFastqEntry(buf)` is the
+offset of an `@` at which the parser, having read `buf[0..n)`, is waiting for a record (state 11): the
+`@` is never the first byte of a quality line (nor of a sequence line).  The rest of the run is the run of
+a fresh parser on `buf[n..] ++ more`, and the records are split accordingly. -/
+theorem splitFastq_is_record_start (sh : UInt8) (wq : Bool) (buf more : Seq) (sF : FqSt) (rs : List Rec)
+    (hread : fqRun sh wq .s0 (buf ++ more) = .ok (sF, rs)) (h : 0 ≤ splitFastq buf) :
+    ∃ rs1 rs2 t, buf.drop (splitFastq buf).toNat = 64 :: t ∧
+      fqRun sh wq .s0 (buf.take (splitFastq buf).toNat) = .ok (.s11, rs1) ∧
+      fqRun sh wq .s0 (buf.drop (splitFastq buf).toNat ++ more) = .ok (sF, rs2) ∧ rs = rs1 ++ rs2 := by
+  have hcut := splitFastq_ok_cut.ext _ _ more (splitFastq_cut buf h)
+  have hsplit : buf ++ more = buf.take (splitFastq buf).toNat ++ (buf.drop (splitFastq buf).toNat ++ more) := by
+    rw [← List.append_assoc, List.take_append_drop]
+  rw [hsplit] at hread
+  obtain ⟨rs1, rs2, hA, hB, hrs⟩ := fqRun_cut sh wq hcut hread
+  obtain ⟨_, x, eols, s, seps, e2, rest, hb, _⟩ := splitFastq_cut buf h
+  exact ⟨rs1, rs2, _, by rw [hb]; simp only [List.cons_append, List.append_assoc]; rfl, hA, hB, hrs⟩
+
+/-- **wellFormedFastq_complete**: every file of the FASTQ grammar `WellFormedFastq`
+(Lemmas/FastqGrammar.lean: four-line records `@`title / sequence over the alphabet / `+`anything / quality
+line of the same length and any bytes but `\n`,`\r` — it may start with `@` or `+` —, LF / CR LF / blank
+lines as separators, optional trailing end-of-line bytes) is read as a whole number of records, with or
+without qualities. -/
+theorem wellFormedFastq_complete (sh : UInt8) (wq : Bool) (file : Seq) (h : WellFormedFastq file) :
+    ∃ rs, FqComplete sh wq file rs := ObiVerif.Parse.wellFormedFastq_complete sh wq h
+
+/-- `splitFastq_is_record_start` on the grammar: on every prefix of every well-formed file -/
+theorem splitFastq_is_record_start_wellFormed (sh : UInt8) (wq : Bool) (buf more : Seq)
+    (hw : WellFormedFastq (buf ++ more)) (h : 0 ≤ splitFastq buf) :
+    ∃ rs1 t, buf.drop (splitFastq buf).toNat = 64 :: t ∧
+      fqRun sh wq .s0 (buf.take (splitFastq buf).toNat) = .ok (.s11, rs1) := by
+  obtain ⟨rs, s, rs0, l, hrun, _⟩ := ObiVerif.Parse.wellFormedFastq_complete sh wq hw
+  obtain ⟨rs1, _, t, ht, hA, _⟩ := splitFastq_is_record_start sh wq buf more s rs0 hrun h
+  exact ⟨rs1, t, ht, hA⟩
+
+/-- **never the `@` of a quality line**, in grammar terms: on a prefix of a well-formed file a
+non-negative result is not the offset at which a quality line starts (`BeforeQual`,
+Lemmas/FastqGrammar.lean: whole records, then `@`title, sequence line, `+` line and the end-of-line
+run that precedes the quality line) — there the parser is in state 9, not 11. -/
+theorem splitFastq_never_quality_line (buf more : Seq) (hw : WellFormedFastq (buf ++ more))
+    (h : 0 ≤ splitFastq buf) : ¬ BeforeQual (buf.take (splitFastq buf).toNat) := by
+  intro hb
+  obtain ⟨rs1, t, _, hA⟩ := splitFastq_is_record_start_wellFormed 0 false buf more hw h
+  obtain ⟨r, rs, hr⟩ := beforeQual_state 0 false hb
+  rw [hr] at hA
+  cases hA
+
+/-- **chunks_cut_at_boundaries** (FASTQ): every chunk of a file that is a whole number of records is
+itself a whole number of records, whatever the buffer size. -/
+theorem chunks_cut_at_boundaries_fastq (sh : UInt8) (wq : Bool) (file : Seq) (rs : List Rec)
+    (hw : FqComplete sh wq file rs) (b : Nat) (cs : List Seq) (h : chunks splitFastq b file = some cs) :
+    ∀ c ∈ cs, ∃ rs', FqComplete sh wq c rs' :=
+  (pieces_parse_fastq sh wq (chunks_pieces splitFastq FastqCut splitFastq_ok_cut b file cs h) rs hw).2
+
+/-- **parseFastq_append** (record locality): if `c1` is a whole number of records, `e` a non-empty run
+of end-of-line bytes and `c2 = '@' :: t` any text starting with `@` (well-formed or not), then parsing
+`c1 ++ e ++ c2` as one chunk gives the records of `c1` followed by the records of `c2`, and fails
+exactly as the parse of `c2` fails. -/
+theorem parseFastq_append (sh : UInt8) (wq : Bool) (c1 : Seq) (rs : List Rec) (h1 : FqComplete sh wq c1 rs)
+    (e : Seq) (he : AllEol e) (hne : e ≠ []) (t : Seq) :
+    parseFastq sh wq c1 = .ok rs ∧
+    parseFastq sh wq (c1 ++ e ++ 64 :: t) =
+      match parseFastq sh wq (64 :: t) with
+      | .error x => .error x
+      | .ok r2 => .ok (rs ++ r2) :=
+  ⟨parseFastq_complete sh wq h1, parseFastq_append_complete sh wq h1 he hne t⟩
+
+/-- **reader_independent_fastq**.  `file` is any text the chunk parser reads as a whole number of
+records (`FqComplete`: no error, ends in or just after a quality line), for any quality shift, with or
+without qualities.  For EVERY read-buffer size `b ≥ 2` the chunk reader terminates with some chunks
+`cs`; the parser workers turn chunk `k` into the batch `(k, parseFastq cs[k])`; for EVERY order `ks` in
+which these numbered batches reach `SortBatches`, the batches released are error-free and their
+records, in release order, are exactly the records of the one-chunk parse of the file. -/
+theorem reader_independent_fastq (sh : UInt8) (wq : Bool) (file : Seq) (rs : List Rec)
+    (hw : FqComplete sh wq file rs) (b : Nat) (hb : 2 ≤ b) :
+    ∃ cs, chunks splitFastq b file = some cs ∧
+      ∀ ks : List Nat, ks.Perm (List.range cs.length) →
+        ∃ rss : List (List Rec),
+          reseq (ks.map fun k => (k, parseFastq sh wq (cs.getD k []))) = rss.map Except.ok ∧
+          parseFastq sh wq file = .ok rss.flatten := by
+  obtain ⟨cs, hcs⟩ := chunks_terminate splitFastq FastqCut splitFastq_ok_cut b hb file
+  refine ⟨cs, hcs, ?_⟩
+  intro ks hperm
+  obtain ⟨⟨rss, hmap, hflat⟩, _⟩ :=
+    pieces_parse_fastq sh wq (chunks_pieces splitFastq FastqCut splitFastq_ok_cut b file cs hcs) rs hw
+  refine ⟨rss, ?_, ?_⟩
+  · rw [reseq_perm (fun k => parseFastq sh wq (cs.getD k [])) cs.length ks hperm, range_map_getD, hmap]
+  · rw [parseFastq_complete sh wq hw, hflat]
+
+/-- **reader_independent_fastq** stated on the grammar: ∀ well-formed single-line FASTQ file, ∀ quality
+shift, with or without qualities, ∀ buffer size ≥ 2, ∀ arrival order of the parsed chunks at the
+re-sequencer: the released batches carry, in order, the records of the one-chunk parse. -/
+theorem reader_independent_fastq_wellFormed (sh : UInt8) (wq : Bool) (file : Seq) (hw : WellFormedFastq file)
+    (b : Nat) (hb : 2 ≤ b) :
+    ∃ cs, chunks splitFastq b file = some cs ∧
+      ∀ ks : List Nat, ks.Perm (List.range cs.length) →
+        ∃ rss : List (List Rec),
+          reseq (ks.map fun k => (k, parseFastq sh wq (cs.getD k []))) = rss.map Except.ok ∧
+          parseFastq sh wq file = .ok rss.flatten := by
+  obtain ⟨rs, hc⟩ := ObiVerif.Parse.wellFormedFastq_complete sh wq hw
+  exact reader_independent_fastq sh wq file rs hc b hb
+
+/-- non-vacuity: the two-record file `@a␊AC␊+␊@I␊@b␊GG␊+␊II` whose first quality line starts with `@` -/
+def exFastq : Seq := [64, 97, 10, 65, 67, 10, 43, 10, 64, 73, 10, 64, 98, 10, 71, 71, 10, 43, 10, 73, 73]
+
+example : WellFormedFastq exFastq :=
+  ⟨_, [],
+    FastqRecords.more (h := [97]) (e1 := [10]) (sq := [65, 67]) (e2 := [10]) (p := []) (e3 := [10])
+      (q := [64, 73]) (e4 := [10]) (rest := [64, 98, 10, 71, 71, 10, 43, 10, 73, 73])
+      ⟨97, [], rfl, by decide, by decide⟩ ⟨by decide, by decide⟩ ⟨by decide, by decide⟩ ⟨by decide, by decide⟩
+      (by decide) ⟨by decide, by decide⟩ (by decide) rfl ⟨by decide, by decide⟩
+      (FastqRecords.one (h := [98]) (e1 := [10]) (sq := [71, 71]) (e2 := [10]) (p := []) (e3 := [10])
+        (q := [73, 73]) ⟨98, [], rfl, by decide, by decide⟩ ⟨by decide, by decide⟩ ⟨by decide, by decide⟩
+        ⟨by decide, by decide⟩ (by decide) ⟨by decide, by decide⟩ (by decide) rfl),
+    by decide, rfl⟩
+
+/-- offset 8 of the sample, the `@` that starts the first quality line, is such a position -/
+example : BeforeQual (exFastq.take 8) :=
+  BeforeQual.first (h := [97]) (e1 := [10]) (sq := [65, 67]) (e2 := [10]) (p := []) (e3 := [10])
+    ⟨97, [], rfl, by decide, by decide⟩ ⟨by decide, by decide⟩ ⟨by decide, by decide⟩ ⟨by decide, by decide⟩
+    (by decide) ⟨by decide, by decide⟩
+
+/-- (tests on the sample) on the 20-byte prefix the splitter answers 11 = the `@` of the second record,
+not 8 = the `@` that starts the first quality line; with a 5-byte buffer the file is cut there -/
+example : splitFastq (exFastq.take 20) = 11 := by decide
+example : chunks splitFastq 5 exFastq =
+    some [[64, 97, 10, 65, 67, 10, 43, 10, 64, 73], [64, 98, 10, 71, 71, 10, 43, 10, 73, 73]] := by rfl
+example : FqComplete 33 true exFastq
+    [{ id := [97], defn := [], seq := [97, 99], qual := some [31, 40] },
+     { id := [98], defn := [], seq := [103, 103], qual := some [40, 40] }] :=
+  ⟨.s10 _ _, _, _, by rfl, trivial, by rfl, by rfl⟩
+/-- the hypothesis of `parseFastq_append` on a chunk that ends with its end-of-line byte -/
+example : FqComplete 33 true (exFastq.take 11) [{ id := [97], defn := [], seq := [97, 99], qual := some [31, 40] }] :=
+  ⟨.s11, _, _, by rfl, trivial, by rfl, by rfl⟩
+
+/-! ## 4c. GenBank / EMBL: record locality and the composed reader under regular line ends -/
+
+/-- **parseGenbank_append** (GenBank record locality, repaired parser): if `a` ends with an
+end-of-record line (`\n//\n` or `\n//\r\n`), parsing `a ++ b` as one chunk gives the records of `a`
+followed by the records of `b`, for every `b`; it fails as `a` fails, else as `b` fails.  After `//`
+the parser is back in `inHeader` with `taxid`, `scientific_name`, definition and features reset; the two
+fields it does not reset (`id`, sequence bytes) are dead: only a `LOCUS` line leaves `inHeader` and it
+overwrites both. -/
+theorem parseGenbank_append (withFeat : Bool) (a b : Seq) (h : FlatEnd a) :
+    parseGenbank withFeat (a ++ b) =
+      match parseGenbank withFeat a with
+      | .error e => .error e
+      | .ok ra =>
+        match parseGenbank withFeat b with
+        | .error e => .error e
+        | .ok rb => .ok (ra ++ rb) := parseGenbank_append_flatEnd withFeat h b
+
+/-- **reader_independent_embl**.  `regularEol file`: every `\r` of the file is followed by `\n` (lines
+end with `\n` or `\r\n`; Lemmas/Genbank.lean).  For every such file — records or not —, every buffer
+size ≥ 2 and every arrival order of the parsed chunks at the re-sequencer, the released batches carry,
+in order, exactly the records of the one-chunk parse (`EmblChunkParser` has no error path). -/
+theorem reader_independent_embl (withFeat : Bool) (file : Seq) (hreg : regularEol file = true)
+    (b : Nat) (hb : 2 ≤ b) :
+    ∃ cs, chunks splitFlat b file = some cs ∧
+      ∀ ks : List Nat, ks.Perm (List.range cs.length) →
+        ∃ rss : List (List Rec),
+          reseq (ks.map fun k => (k, parseEmbl withFeat (cs.getD k []))) = rss.map Except.ok ∧
+          parseEmbl withFeat file = .ok rss.flatten := by
+  obtain ⟨cs, hcs⟩ := chunks_terminate splitFlat FlatCut splitFlat_ok_cut b hb file
+  refine ⟨cs, hcs, ?_⟩
+  intro ks hperm
+  have hp := pieces_parse_embl withFeat (chunks_pieces splitFlat FlatCut splitFlat_ok_cut b file cs hcs) hreg
+  refine ⟨cs.map (emblRecs withFeat), ?_, ?_⟩
+  · rw [reseq_perm (fun k => parseEmbl withFeat (cs.getD k [])) cs.length ks hperm, range_map_getD]
+    simp [parseEmbl_eq]
+  · rw [parseEmbl_eq, hp]
+
+/-- **reader_independent_genbank**.  For every file with regular line ends that `GenbankChunkParser`
+reads without a fatal error as one chunk, every buffer size ≥ 2 and every arrival order of the parsed
+chunks at the re-sequencer, the released batches are error-free and carry, in order, exactly the
+records of the one-chunk parse. -/
+theorem reader_independent_genbank (withFeat : Bool) (file : Seq) (hreg : regularEol file = true)
+    (rs : List Rec) (hok : parseGenbank withFeat file = .ok rs) (b : Nat) (hb : 2 ≤ b) :
+    ∃ cs, chunks splitFlat b file = some cs ∧
+      ∀ ks : List Nat, ks.Perm (List.range cs.length) →
+        ∃ rss : List (List Rec),
+          reseq (ks.map fun k => (k, parseGenbank withFeat (cs.getD k []))) = rss.map Except.ok ∧
+          parseGenbank withFeat file = .ok rss.flatten := by
+  obtain ⟨cs, hcs⟩ := chunks_terminate splitFlat FlatCut splitFlat_ok_cut b hb file
+  refine ⟨cs, hcs, ?_⟩
+  intro ks hperm
+  obtain ⟨rss, hmap, hflat⟩ :=
+    pieces_parse_genbank withFeat (chunks_pieces splitFlat FlatCut splitFlat_ok_cut b file cs hcs) hreg rs hok
+  refine ⟨rss, ?_, ?_⟩
+  · rw [reseq_perm (fun k => parseGenbank withFeat (cs.getD k [])) cs.length ks hperm, range_map_getD, hmap]
+  · rw [hok, hflat]
+
+/-- **reader_independent_flat**: both flat-file formats, same chunks (the splitter is shared) -/
+theorem reader_independent_flat (withFeat : Bool) (file : Seq) (hreg : regularEol file = true)
+    (b : Nat) (hb : 2 ≤ b) :
+    ∃ cs, chunks splitFlat b file = some cs ∧
+      ∀ ks : List Nat, ks.Perm (List.range cs.length) →
+        (∃ rss : List (List Rec),
+          reseq (ks.map fun k => (k, parseEmbl withFeat (cs.getD k []))) = rss.map Except.ok ∧
+          parseEmbl withFeat file = .ok rss.flatten) ∧
+        (∀ rs, parseGenbank withFeat file = .ok rs →
+          ∃ rss : List (List Rec),
+            reseq (ks.map fun k => (k, parseGenbank withFeat (cs.getD k []))) = rss.map Except.ok ∧
+            parseGenbank withFeat file = .ok rss.flatten) := by
+  obtain ⟨cs, hcs, hE⟩ := reader_independent_embl withFeat file hreg b hb
+  refine ⟨cs, hcs, fun ks hperm => ⟨hE ks hperm, fun rs hok => ?_⟩⟩
+  obtain ⟨cs', hcs', hG⟩ := reader_independent_genbank withFeat file hreg rs hok b hb
+  rw [hcs] at hcs'
+  cases hcs'
+  exact hG ks hperm
+
+/-- non-vacuity: two-record files, the second record with CR LF line ends.
+GenBank `LOCUS       A␊FEATURES    ␊ORIGIN␊        1 ac␊//␊LOCUS       B␍␊…␍␊//␍␊`,
+EMBL `ID   A;␊     ac 2␊//␊ID   B;␍␊     gg 2␍␊//␍␊` -/
+def exGenbank : Seq := [76, 79, 67, 85, 83, 32, 32, 32, 32, 32, 32, 32, 65, 10, 70, 69, 65, 84, 85, 82, 69, 83, 32, 32, 32, 32, 10, 79, 82, 73, 71, 73, 78, 10, 32, 32, 32, 32, 32, 32, 32, 32, 49, 32, 97, 99, 10, 47, 47, 10, 76, 79, 67, 85, 83, 32, 32, 32, 32, 32, 32, 32, 66, 13, 10, 70, 69, 65, 84, 85, 82, 69, 83, 32, 32, 32, 32, 13, 10, 79, 82, 73, 71, 73, 78, 13, 10, 32, 32, 32, 32, 32, 32, 32, 32, 49, 32, 103, 103, 13, 10, 47, 47, 13, 10]
+def exEmbl : Seq := [73, 68, 32, 32, 32, 65, 59, 10, 32, 32, 32, 32, 32, 97, 99, 32, 50, 10, 47, 47, 10, 73, 68, 32, 32, 32, 66, 59, 13, 10, 32, 32, 32, 32, 32, 103, 103, 32, 50, 13, 10, 47, 47, 13, 10]
+
+example : regularEol exGenbank = true ∧ regularEol exEmbl = true := by decide
+example : parseGenbank false exGenbank =
+    .ok [{ id := [65], defn := [], seq := [97, 99], flat := some (1, [], []) },
+         { id := [66], defn := [], seq := [103, 103], flat := some (1, [], []) }] := by rfl
+/-- (tests on the samples) with an 8-byte buffer both files are cut after the first `//` line -/
+example : (chunks splitFlat 8 exGenbank).map List.length = some 2 := by rfl
+example : (chunks splitFlat 8 exEmbl).map (fun cs => cs.map (parseEmbl false)) =
+    some [.ok [{ id := [65], defn := [], seq := [97, 99], flat := some (1, [], []) }],
+          .ok [{ id := [66], defn := [], seq := [103, 103], flat := some (1, [], []) }]] := by rfl
+
+/-- **the regular-line-end hypothesis is needed** (irregular files, not well-formed ones).
+EMBL `ID   A;␊//␍␍␊`: as one chunk the line `//␍` is not an end of record and no record is returned;
+`ReadSeqFileChunk` strips the whole run `␍␍␊` from its (single) chunk, whose parse returns one record. -/
+theorem reader_embl_irregular_counterexample :
+    let file : Seq := [73, 68, 32, 32, 32, 65, 59, 10, 47, 47, 13, 13, 10]
+    regularEol file = false ∧ parseEmbl false file = .ok [] ∧
+    chunks splitFlat 4 file = some [[73, 68, 32, 32, 32, 65, 59, 10, 47, 47]] ∧
+    parseEmbl false [73, 68, 32, 32, 32, 65, 59, 10, 47, 47] =
+      .ok [{ id := [65], defn := [], seq := [], flat := some (1, [], []) }] := by
+  refine ⟨by decide, by rfl, by rfl, by rfl⟩
+
+/-- GenBank `LOCUS       A␊FEATURES    ␊ORIGIN␊//␍` (a last line ending with a lone `␍`): as one chunk
+`ReadLine` returns `//␍`, taken as a sequence line shorter than 10 bytes (`line[10:]` panics); the
+chunk reader strips the `␍` and the parse of its chunk returns one record. -/
+theorem reader_genbank_irregular_counterexample :
+    let file : Seq := [76, 79, 67, 85, 83, 32, 32, 32, 32, 32, 32, 32, 65, 10, 70, 69, 65, 84, 85, 82, 69, 83, 32, 32, 32, 32, 10, 79, 82, 73, 71, 73, 78, 10, 47, 47, 13]
+    regularEol file = false ∧ parseGenbank false file = .error .panic ∧
+    (chunks splitFlat 4 file).map (fun cs => cs.map (parseGenbank false)) =
+      some [.ok [{ id := [65], defn := [], seq := [], flat := some (1, [], []) }]] := by
+  refine ⟨by decide, by rfl, by rfl⟩
+
+/-! ## 5. Scope of the hypotheses
+
+FASTA, FASTQ: the composed theorems hold for every text the chunk parser reads as a whole number of
+records (`FaComplete`, `FqComplete`), in particular for every file of the grammars `WellFormedFasta`,
+`WellFormedFastq`.  A FASTQ text that ends inside a record (e.g. after the sequence line) is outside
+`FqComplete`: the final flush strips its trailing end-of-line bytes, which changes the state in which
+the parser ends.
+GenBank / EMBL: `regularEol` (every `\r` followed by `\n`) is needed only for the LAST chunk, the
+only one whose stripped end-of-line run is not known to be `\n` or `\r\n`; the two counterexamples
+above are irregular files.  EMBL record locality (`parseEmbl_append`) and GenBank record locality
+(`parseGenbank_append`) are false before the repair `C01-flatfile-record-state-reset` (witness: two
+records, the second without `/db_xref="taxon:`). -/
 
 /-- non-vacuity: the two-record file `>a x>y␍␊AC␍␊GT␍␊>b␊TT␊` (folded sequence, CR LF, a title containing `>`) -/
 def exFile : Seq := [62, 97, 32, 120, 62, 121, 13, 10, 65, 67, 13, 10, 71, 84, 13, 10, 62, 98, 10, 84, 84, 10]
